@@ -55,6 +55,8 @@ class ProbeModule:
         self.modname = modname
         self.m = W.Module()
         self.probes = []
+        self.pre_includes = []
+        self.decls = []
         self.g = {}
         for i, t in enumerate((W.I32, W.I64, W.F32, W.F64)):
             self.g[t] = self.m.global_(t, True, W.const_expr(t, 0))
@@ -80,11 +82,18 @@ class ProbeModule:
 
     def harness_text(self, spec_includes):
         mod = self.modname
-        out = ['#include "vh.h"', '#include "%s.c"' % mod]
+        out = ['#include "vh.h"']
+        if self.pre_includes:
+            out.append('#include "w2c2_base.h"')
+            out.append('#include "wasm_int.h"')
+            out.append('#include "trapstub.h"')
+            out += ['#include "%s"' % h for h in self.pre_includes]
+        out.append('#include "%s.c"' % mod)
         for h in spec_includes:
             out.append('#include "%s"' % h)
         out.append('#include "trapstub.h"')
         out.append("static %sInstance inst;" % mod)
+        out += self.decls
         for p in self.probes:
             out.append("void h_%s(void) {" % p.name)
             for i, t in enumerate(p.params):
